@@ -715,6 +715,7 @@ pub fn run(cfg: &Cfg) -> Report {
   }
   // ---------------------------------------------------------------- function values with typed parameters
   typed_functions(&mut rep, &mut model, &mut rng, thorough);
+  sequences(&mut rep, &mut model, &mut rng, thorough);
   rep.model_requests = model.requests;
   rep
 }
@@ -895,6 +896,105 @@ fn typed_functions(rep: &mut Report, model: &mut Model, rng: &mut Rng, thorough:
               &expected.to_string(),
             );
           }
+        }
+      }
+    }
+  }
+
+  // ---------------------------------------------------------------- (a') named arguments: names no parameter has, parameters
+  // without an argument, one name written twice (the model: `bindNamed`; theorems `bindNamed_spec`,
+  // `bindNamed_unknown_name`, `bindNamed_missing`, `bindNamed_eq_bindPositional`)
+  {
+    struct Named {
+      text: String,
+      shape: &'static str,
+      tys: Vec<usize>,
+      // (name, argument) as written
+      written: Vec<(&'static str, usize)>,
+    }
+    let mut cases: Vec<Named> = vec![];
+    let mut nreqs: Vec<String> = vec![];
+    let shapes: &[(&'static str, &[(&'static str, usize)])] = &[
+      ("in the order of the declaration", &[("x", 0), ("y", 1)]),
+      ("in the other order", &[("y", 1), ("x", 0)]),
+      ("a parameter without an argument", &[("x", 0)]),
+      ("a parameter without an argument", &[("y", 1)]),
+      ("no arguments", &[]),
+      ("a name no parameter has", &[("x", 0), ("y", 1), ("z", 2)]),
+      ("a name no parameter has", &[("z", 2), ("x", 0), ("y", 1)]),
+      ("a name no parameter has", &[("x", 0), ("z", 1)]),
+      ("a name no parameter has", &[("X", 0), ("y", 1)]),
+      ("one name written twice", &[("x", 0), ("x", 2), ("y", 1)]),
+      ("one name written twice", &[("y", 1), ("x", 2), ("x", 0)]),
+      ("one name written twice", &[("x", 0), ("y", 1), ("y", 2)]),
+    ];
+    for (i1, (t1, _)) in types.iter().enumerate() {
+      for (i2, (t2, _)) in types.iter().enumerate() {
+        if !thorough && !rng.chance(1, 2) {
+          continue;
+        }
+        let a: Vec<usize> = (0..3).map(|_| rng.below(args.len() as u64) as usize).collect();
+        let f = format!("function(x: {}, y: {}) [x, y]", t1, t2);
+        for (shape, written) in shapes {
+          let actual: Vec<String> = written.iter().map(|(n, k)| format!("{}: {}", n, args[a[*k]].0)).collect();
+          let text = if written.is_empty() { format!("({})()", f) } else { format!("({})({})", f, actual.join(", ")) };
+          nreqs.push(format!(
+            "(c16 bindnamed (({} {}) ({} {})) ({}))",
+            Sexp::str("x"),
+            type_sexp(&types[i1].1),
+            Sexp::str("y"),
+            type_sexp(&types[i2].1),
+            written.iter().map(|(n, k)| format!("({} {})", Sexp::str(n), args[a[*k]].2)).collect::<Vec<_>>().join(" ")
+          ));
+          cases.push(Named { text, shape, tys: vec![i1, i2], written: written.iter().map(|(n, k)| (*n, a[*k])).collect() });
+        }
+      }
+    }
+    let nanswers = model.ask_batch(&nreqs);
+    for (c, ans) in cases.iter().zip(nanswers.iter()) {
+      rep.case(&format!("named-arguments|{}", c.text), c.tys[0] != c.tys[1]);
+      rep.hit(&format!("named-arguments:{}", c.shape));
+      let parsed = Sexp::parse(ans);
+      let l = parsed.as_ref().and_then(|s| s.as_list());
+      let expected: Value = match l.and_then(|l| l.first()).and_then(|h| h.as_atom()) {
+        Some("none") => Value::Null(None),
+        Some("some") => {
+          let tags: Vec<String> = l.unwrap().iter().skip(1).filter_map(|x| x.as_atom().map(|a| a.to_string())).collect();
+          if tags.len() != 2 {
+            rep.disagree(Kind::ImplVsModel, "named-arguments", "driver-error", &c.text, "", ans);
+            continue;
+          }
+          // the argument of each parameter: the last one written with its name
+          let arg_of = |n: &str| c.written.iter().rev().find(|(m, _)| *m == n).map(|(_, k)| *k);
+          match (arg_of("x"), arg_of("y")) {
+            (Some(kx), Some(ky)) => Value::List(Values::new(vec![by_tag(&tags[0], &args[kx].1), by_tag(&tags[1], &args[ky].1)])),
+            _ => {
+              rep.disagree(Kind::ImplVsModel, "named-arguments", "driver-error", &c.text, "", ans);
+              continue;
+            }
+          }
+        }
+        _ => {
+          rep.disagree(Kind::ImplVsModel, "named-arguments", "driver-error", &c.text, "", ans);
+          continue;
+        }
+      };
+      // the empty list of named arguments is not a named invocation for the parser: left to C01
+      if c.written.is_empty() {
+        continue;
+      }
+      match eval_feel(&c.text) {
+        Some(g) if same_value(&g, &expected) => {}
+        other => {
+          let spec = c.shape == "in the order of the declaration" || c.shape == "in the other order";
+          rep.disagree(
+            if spec { Kind::ImplVsSpec } else { Kind::ImplVsModel },
+            "named-arguments",
+            &format!("invocation with named arguments ({}) differs from the binding of every parameter to the coercion of the argument of its name", c.shape),
+            &c.text,
+            &format!("{:?}", other.map(|x| x.to_string())),
+            &expected.to_string(),
+          );
         }
       }
     }
@@ -1125,6 +1225,489 @@ fn typed_functions(rep: &mut Report, model: &mut Model, rng: &mut Rng, thorough:
     // on the implementation alone: a value is never an instance of a type its own type does not conform to
     if g && !v.type_of().is_conformant(ty) {
       rep.disagree(Kind::ImplVsSpec, "instance_of_conforms", "a value is an instance of a type to which its type does not conform", text, "true", "false");
+    }
+  }
+}
+
+// ------------------------------------------------------------------------------------------------
+// Sequences: a value whose type was asked for, then transformed, then typed again.  The type of a value and the
+// coercion of a value depend on the value alone (`typeOf`, `coerce` of the specification are functions of the
+// value): whatever was asked of the value - or of the value it was made from - before must not show.
+//
+// (a) through FEEL, in ONE expression, so that the same `Value` (or its clone) flows through all three stages:
+//       typed once   `(function(x: T1) x)(V)`, a context entry read after `instance of`, a `for` variable, nothing
+//       transformed  every list built-in that makes a list from a list (`remove`, `append`, `insert before`,
+//                    `sublist`, `reverse`, `distinct values`, `flatten`, `union`, `concatenate`, `sort`), a filter,
+//                    a `for`, the same applied to an ITEM of the typed list (typing a list types its items)
+//       typed again  `(function(y: T2) y)(…)`, `… instance of T2`, the result type of an ordering function's argument
+//     expected: the specification's `coerce T2 R` / `instanceOf R T2` (Lean, requests `(c16 coerce …)`,
+//     `(c16 instanceof …)`) of the value R that the transformation gives by a reference implementation written
+//     here from the DMN text, built fresh.
+// (b) through the public API of `Values`: histories of `new`, `add`, `insert`, `remove`, `reverse`, `clone` with
+//     `type_of` / `coerced` asked at arbitrary points; after every step the type of the list is the specification's
+//     type of a freshly built list of the same items.
+
+fn fresh(v: &Value) -> Value {
+  match v {
+    Value::List(xs) => Value::List(Values::new(xs.as_vec().iter().map(fresh).collect())),
+    Value::Context(c) => {
+      let mut out = FeelContext::default();
+      for (k, x) in c.get_entries() {
+        out.set_entry(k, fresh(x));
+      }
+      Value::Context(out)
+    }
+    other => other.clone(),
+  }
+}
+
+/// reference implementations (DMN 1.3, 10.3.4.4) on in-domain arguments; `None` = not in the domain used here
+fn ref_transform(name: &str, l: &[Value], extra: &[Value]) -> Option<Vec<Value>> {
+  let n = l.len() as i64;
+  let int = |v: &Value| -> Option<i64> {
+    match v {
+      Value::Number(x) => x.to_string().parse::<i64>().ok(),
+      _ => None,
+    }
+  };
+  // a position 1..n, or -n..-1 counted from the end, as a 0-based index
+  let index = |p: i64| -> Option<usize> {
+    if p >= 1 && p <= n {
+      Some((p - 1) as usize)
+    } else if p <= -1 && p >= -n {
+      Some((n + p) as usize)
+    } else {
+      None
+    }
+  };
+  let dedup = |xs: Vec<Value>| -> Vec<Value> {
+    let mut out: Vec<Value> = vec![];
+    for x in xs {
+      if !out.iter().any(|y| same_value(y, &x)) {
+        out.push(x);
+      }
+    }
+    out
+  };
+  fn flat(xs: &[Value], out: &mut Vec<Value>) {
+    for x in xs {
+      match x {
+        Value::List(ys) => flat(ys.as_vec(), out),
+        other => out.push(other.clone()),
+      }
+    }
+  }
+  Some(match name {
+    "remove" => {
+      let i = index(int(&extra[0])?)?;
+      let mut v = l.to_vec();
+      v.remove(i);
+      v
+    }
+    "append" => {
+      let mut v = l.to_vec();
+      v.extend(extra.iter().cloned());
+      v
+    }
+    "insert before" => {
+      let i = index(int(&extra[0])?)?;
+      let mut v = l.to_vec();
+      v.insert(i, extra[1].clone());
+      v
+    }
+    "sublist" => {
+      let i = index(int(&extra[0])?)?;
+      match extra.get(1) {
+        None => l[i..].to_vec(),
+        Some(len) => {
+          let len = int(len)?;
+          if len < 0 || i as i64 + len > n {
+            return None;
+          }
+          l[i..i + len as usize].to_vec()
+        }
+      }
+    }
+    "reverse" => l.iter().rev().cloned().collect(),
+    "distinct values" => dedup(l.to_vec()),
+    "flatten" => {
+      let mut out = vec![];
+      flat(l, &mut out);
+      out
+    }
+    "concatenate" | "union" => {
+      let mut v = l.to_vec();
+      for e in extra {
+        match e {
+          Value::List(ys) => v.extend(ys.as_vec().iter().cloned()),
+          _ => return None,
+        }
+      }
+      if name == "union" {
+        dedup(v)
+      } else {
+        v
+      }
+    }
+    // an ordering function that puts nothing before anything: the arrangement stays (sort is stable)
+    "sort-none" | "for" => l.to_vec(),
+    "filter-number" => l.iter().filter(|x| matches!(x, Value::Number(_))).cloned().collect(),
+    "filter-not-null" => l.iter().filter(|x| !matches!(x, Value::Null(_))).cloned().collect(),
+    "filter-list" => l.iter().filter(|x| matches!(x, Value::List(_))).cloned().collect(),
+    _ => return None,
+  })
+}
+
+fn sequences(rep: &mut Report, model: &mut Model, rng: &mut Rng, thorough: bool) {
+  // ---------------------------------------------------------------- (a) through FEEL
+  let sources: &[&str] = &[
+    "[1, \"a\"]", "[\"a\", 1]", "[1, 2]", "[1]", "[\"a\"]", "[]", "[1, null]", "[null, 1]", "[null]", "[1, \"a\", 2]", "[1, 2, \"a\"]", "[true, 1]", "[[1], \"a\"]", "[[1], [2]]",
+    "[[1], [\"a\"]]", "[[1, \"a\"]]", "[[1, \"a\"], [2]]", "[[1, \"a\"], 2]", "[[], 1]", "[[]]", "[{a: 1}, {a: \"x\"}]", "[{a: 1}, {b: 1}]", "[{a: 1}, 1]", "[1, 1]", "[1, \"a\", 1]", "[[1], [1]]",
+    "[[[1]], [1]]", "[date(\"2021-02-03\"), 1]",
+  ];
+  // how the value is typed the first time: {} stands for the value
+  let typings: &[(&str, &str, &str)] = &[
+    ("parameter of type Any", "Any", "(function(x: Any) x)({})"),
+    ("parameter of type list<Any>", "list<Any>", "(function(x: list<Any>) x)({})"),
+    ("parameter of type list<number>", "list<number>", "(function(x: list<number>) x)({})"),
+    ("parameter of type list<list<Any>>", "list<list<Any>>", "(function(x: list<list<Any>>) x)({})"),
+    ("parameter without a type", "Any", "(function(x) x)({})"),
+    ("named argument", "list<Any>", "(function(x: list<Any>) x)(x: {})"),
+    ("not typed before", "", "{}"),
+  ];
+  // transformations: (name for the reference, extra arguments as text, the expression over L)
+  let mut transforms: Vec<(&str, Vec<&str>, String)> = vec![];
+  for p in ["1", "2", "3", "-1", "-2"] {
+    transforms.push(("remove", vec![p], format!("remove(L, {})", p)));
+  }
+  for item in ["1", "\"a\"", "null", "[1]"] {
+    transforms.push(("append", vec![item], format!("append(L, {})", item)));
+    transforms.push(("insert before", vec!["1", item], format!("insert before(L, 1, {})", item)));
+    transforms.push(("insert before", vec!["-1", item], format!("insert before(L, -1, {})", item)));
+    transforms.push(("concatenate", vec![match item { "1" => "[1]", "\"a\"" => "[\"a\"]", "null" => "[null]", _ => "[[1]]" }], format!("concatenate(L, [{}])", item)));
+    transforms.push(("union", vec![match item { "1" => "[1]", "\"a\"" => "[\"a\"]", "null" => "[null]", _ => "[[1]]" }], format!("union(L, [{}])", item)));
+  }
+  for (a, b) in [("1", None), ("2", None), ("-1", None), ("1", Some("1")), ("2", Some("1")), ("1", Some("0")), ("1", Some("2")), ("-2", Some("1"))] {
+    match b {
+      None => transforms.push(("sublist", vec![a], format!("sublist(L, {})", a))),
+      Some(b) => transforms.push(("sublist", vec![a, b], format!("sublist(L, {}, {})", a, b))),
+    }
+  }
+  transforms.push(("reverse", vec![], "reverse(L)".into()));
+  transforms.push(("distinct values", vec![], "distinct values(L)".into()));
+  transforms.push(("flatten", vec![], "flatten(L)".into()));
+  transforms.push(("concatenate", vec!["[]"], "concatenate(L, [])".into()));
+  transforms.push(("union", vec!["[]"], "union(L, [])".into()));
+  transforms.push(("sort-none", vec![], "sort(L, function(p, q) false)".into()));
+  transforms.push(("for", vec![], "for i in L return i".into()));
+  transforms.push(("filter-number", vec![], "L[item instance of number]".into()));
+  transforms.push(("filter-not-null", vec![], "L[item != null]".into()));
+  transforms.push(("filter-list", vec![], "L[item instance of list<Any>]".into()));
+  // how the result is typed again
+  let targets: &[&str] = &[
+    "number", "string", "boolean", "Null", "Any", "list<number>", "list<string>", "list<Any>", "list<Null>", "list<list<number>>", "list<list<Any>>", "list<list<Null>>", "context<a: number>",
+    "list<context<a: number>>", "list<boolean>", "list<date>", "date",
+  ];
+  let mut target_types: Vec<(&str, FeelType)> = vec![];
+  for t in targets {
+    match eval_feel(&format!("function (x: {}) x", t)) {
+      Some(Value::FunctionDefinition(ps, _, _)) if ps.len() == 1 => target_types.push((*t, ps[0].1.clone())),
+      _ => rep.hit("sequences:type cannot be written"),
+    }
+  }
+  struct SeqCase {
+    text: String,
+    how: &'static str,
+    target: usize,
+    result: Value,
+    instance: bool,
+  }
+  let mut cases: Vec<SeqCase> = vec![];
+  let mut reqs: Vec<String> = vec![];
+  let mut plain_checked: std::collections::HashMap<String, bool> = std::collections::HashMap::new();
+  // the value that leaves the first typing: the specification's coercion of the source to the parameter's type
+  let mut typed_sources: Vec<(&str, &'static str, String, Vec<Value>, String)> = vec![];
+  {
+    let mut treqs: Vec<String> = vec![];
+    let mut tmeta: Vec<(&str, usize, Value)> = vec![];
+    for src in sources {
+      let v = match eval_feel(src) {
+        Some(v @ Value::List(_)) => v,
+        _ => {
+          rep.hit("sequences:source does not evaluate");
+          continue;
+        }
+      };
+      let sk = match value_skeleton(&v) {
+        Some(s) => s,
+        None => continue,
+      };
+      for (k, (_, t1, _)) in typings.iter().enumerate() {
+        let ty = if t1.is_empty() {
+          FeelType::Any
+        } else {
+          match eval_feel(&format!("function (x: {}) x", t1)) {
+            Some(Value::FunctionDefinition(ps, _, _)) if ps.len() == 1 => ps[0].1.clone(),
+            _ => continue,
+          }
+        };
+        treqs.push(format!("(c16 coerce {} {})", type_sexp(&ty), sk));
+        tmeta.push((*src, k, v.clone()));
+      }
+    }
+    let tanswers = model.ask_batch(&treqs);
+    for ((src, k, v), ans) in tmeta.iter().zip(tanswers.iter()) {
+      let tag = Sexp::parse(ans).as_ref().and_then(|s| s.as_list()).and_then(|l| l.get(1).and_then(|x| x.as_atom()).map(|x| x.to_string())).unwrap_or_default();
+      match fresh(&by_tag(&tag, v)) {
+        Value::List(xs) => {
+          let w = Value::List(xs.clone());
+          if let Some(w_text) = value_text(&w) {
+            typed_sources.push((*src, typings[*k].0, typings[*k].2.replace("{}", src), xs.as_vec().clone(), w_text));
+          }
+        }
+        _ => rep.hit("sequences:the first typing gives null"),
+      }
+    }
+  }
+  for (_src, how, typed, v, w_text) in &typed_sources {
+    {
+      let v: &Vec<Value> = v;
+      let how: &'static str = how;
+    for (tname, extra_txt, expr) in &transforms {
+      let extra: Option<Vec<Value>> = extra_txt.iter().map(|t| eval_feel(t)).collect();
+      let extra = match extra {
+        Some(e) => e,
+        None => continue,
+      };
+      // the transformation of the list itself, and of its first item when that is a list (typing a list asks for
+      // the types of its items)
+      let mut shapes: Vec<(String, Option<Vec<Value>>)> = vec![(expr.replace('L', "(V)"), ref_transform(tname, v, &extra))];
+      if let Some(Value::List(inner)) = v.first() {
+        shapes.push((expr.replace('L', "(V)[1]"), ref_transform(tname, inner.as_vec(), &extra)));
+      }
+      for (shape, reference) in shapes {
+        let reference = match reference {
+          Some(r) => Value::List(Values::new(r.iter().map(fresh).collect())),
+          None => {
+            rep.hit("sequences:outside the domain of the reference");
+            continue;
+          }
+        };
+        // the transformation on the value written out, untyped: it must give the reference's value (what the
+        // built-ins return is C08's matter; a difference here only removes the case)
+        let plain = shape.replace('V', w_text);
+        let ok = *plain_checked.entry(plain.clone()).or_insert_with(|| eval_feel(&plain).map_or(false, |g| same_value(&g, &reference)));
+        if !ok {
+          rep.hit("sequences:transformation differs from the reference (left to C08)");
+          continue;
+        }
+        let sk = match value_skeleton(&reference) {
+          Some(s) => s,
+          None => continue,
+        };
+        let e = shape.replace('V', typed);
+        for (ti, (tt, ty)) in target_types.iter().enumerate() {
+          if !thorough && !rng.chance(1, 3) {
+            continue;
+          }
+          reqs.push(format!("(c16 coerce {} {})", type_sexp(ty), sk));
+          cases.push(SeqCase { text: format!("(function(y: {}) y)({})", tt, e), how, target: ti, result: reference.clone(), instance: false });
+          reqs.push(format!("(c16 instanceof {} {})", sk, type_sexp(ty)));
+          cases.push(SeqCase { text: format!("({}) instance of {}", e, tt), how, target: ti, result: reference.clone(), instance: true });
+        }
+      }
+    }
+    }
+  }
+  let answers = model.ask_batch(&reqs);
+  for (c, ans) in cases.iter().zip(answers.iter()) {
+    let parsed = Sexp::parse(ans);
+    let l = parsed.as_ref().and_then(|s| s.as_list());
+    let typed_before = c.how != "not typed before";
+    rep.case(&format!("sequence|{}", c.text), typed_before);
+    let got = eval_feel(&c.text);
+    let (tt, _ty) = &target_types[c.target];
+    if c.instance {
+      let want = match l.and_then(|l| l.first()).and_then(bool_of) {
+        Some(b) => b,
+        None => {
+          rep.disagree(Kind::ImplVsModel, "sequences", "driver-error", &c.text, "", ans);
+          continue;
+        }
+      };
+      rep.hit(&format!("sequence:instance of:{}", want));
+      match got {
+        Some(Value::Boolean(g)) if g == want => {}
+        other => rep.disagree(
+          Kind::ImplVsSpec,
+          "sequences",
+          &format!("instance of, asked of a list made from a list that was typed before ({}), differs from the specification's answer for the resulting value", c.how),
+          &format!("{} (the resulting value is {}; the specification: {} instance of {} = {})", c.text, c.result, c.result, tt, want),
+          &format!("{:?}", other.map(|x| x.to_string())),
+          &want.to_string(),
+        ),
+      }
+    } else {
+      let tag = match l.and_then(|l| l.get(1)).and_then(|x| x.as_atom()) {
+        Some(t) => t.to_string(),
+        None => {
+          rep.disagree(Kind::ImplVsModel, "sequences", "driver-error", &c.text, "", ans);
+          continue;
+        }
+      };
+      let expected = by_tag(&tag, &c.result);
+      rep.hit(&format!("sequence:coerced:{}", tag));
+      match got {
+        Some(g) if same_value(&g, &expected) => {}
+        other => rep.disagree(
+          Kind::ImplVsSpec,
+          "sequences",
+          &format!("coercion of a list made from a list that was typed before ({}) differs from the specification's coercion of the resulting value ({})", c.how, tag),
+          &format!("{} (the resulting value is {}; the specification: coerce {} {} = {})", c.text, c.result, tt, c.result, expected),
+          &format!("{:?}", other.map(|x| x.to_string())),
+          &expected.to_string(),
+        ),
+      }
+    }
+  }
+
+  // ---------------------------------------------------------------- (b) histories of the public API of `Values`
+  let num = |n: i128| Value::Number(FeelNumber::new(n, 0));
+  let items: Vec<Value> = vec![
+    num(1),
+    num(2),
+    Value::String("a".into()),
+    Value::Null(None),
+    Value::Boolean(true),
+    Value::List(Values::new(vec![])),
+    Value::List(Values::new(vec![num(1)])),
+    Value::List(Values::new(vec![num(1), Value::String("a".into())])),
+    Value::List(Values::new(vec![Value::String("a".into())])),
+  ];
+  let probe_types: Vec<FeelType> = vec![
+    FeelType::Number,
+    FeelType::String,
+    FeelType::Any,
+    FeelType::List(Box::new(FeelType::Number)),
+    FeelType::List(Box::new(FeelType::String)),
+    FeelType::List(Box::new(FeelType::Any)),
+    FeelType::List(Box::new(FeelType::Null)),
+    FeelType::List(Box::new(FeelType::List(Box::new(FeelType::Number)))),
+    FeelType::List(Box::new(FeelType::List(Box::new(FeelType::Any)))),
+  ];
+  struct Step {
+    history: String,
+    list: Value,
+    probe: usize,
+  }
+  let mut steps: Vec<Step> = vec![];
+  let mut hreqs: Vec<String> = vec![];
+  let mut impl_answers: Vec<(Result<FeelType, String>, Result<Value, String>)> = vec![];
+  let n_hist = if thorough { 20_000 } else { 2_500 };
+  for h in 0..n_hist {
+    let n0 = rng.below(4) as usize;
+    let start: Vec<Value> = (0..n0).map(|_| rng.pick(&items).clone()).collect();
+    let mut history = format!("new({})", Value::List(Values::new(start.clone())));
+    let mut cur = Values::new(start);
+    let mut parked: Option<Values> = None;
+    let len = 2 + rng.below(7);
+    for _ in 0..len {
+      // the first histories ask for the type after every step, the others now and then
+      let ask_always = h % 3 == 0;
+      match rng.below(7) {
+        0 => {
+          let x = rng.pick(&items).clone();
+          history.push_str(&format!("; add({})", x));
+          cur.add(x);
+        }
+        1 => {
+          let x = rng.pick(&items).clone();
+          let i = rng.below(cur.len() as u64 + 1) as usize;
+          history.push_str(&format!("; insert({}, {})", i, x));
+          cur.insert(i, x);
+        }
+        2 | 3 => {
+          if cur.len() > 0 {
+            let i = rng.below(cur.len() as u64) as usize;
+            history.push_str(&format!("; remove({})", i));
+            cur.remove(i);
+          }
+        }
+        4 => {
+          history.push_str("; reverse()");
+          cur.reverse();
+        }
+        5 => {
+          history.push_str("; clone(), continue with the clone");
+          let c = cur.clone();
+          parked = Some(std::mem::replace(&mut cur, c));
+        }
+        _ => {
+          if let Some(p) = parked.take() {
+            history.push_str("; back to the value the clone was made of");
+            parked = Some(std::mem::replace(&mut cur, p));
+          }
+        }
+      }
+      if ask_always || rng.chance(1, 2) {
+        let probe = rng.below(probe_types.len() as u64) as usize;
+        // the implementation is asked on the value of the history itself (a borrow, no copy)
+        let lv = Value::List(cur);
+        let tv = crate::util::guarded(|| lv.type_of());
+        let cv = crate::util::guarded(|| probe_types[probe].coerced(&lv));
+        // the history continues with the value that was asked, or - when coercion returned the list itself -
+        // now and then with what coercion returned (a clone made by `coerced`)
+        cur = match (&cv, lv) {
+          (Ok(Value::List(returned)), Value::List(back)) if returned.as_vec().len() == back.as_vec().len() && *returned == back && rng.chance(1, 3) => returned.clone(),
+          (_, Value::List(back)) => back,
+          _ => unreachable!(),
+        };
+        history.push_str(&format!("; type_of, coerced to {}", probe_types[probe]));
+        let now = Value::List(Values::new(cur.as_vec().iter().map(fresh).collect()));
+        if let Some(sk) = value_skeleton(&now) {
+          hreqs.push(format!("(c16 coerce {} {})", type_sexp(&probe_types[probe]), sk));
+          steps.push(Step { history: history.clone(), list: now, probe });
+          impl_answers.push((tv, cv));
+        }
+      }
+    }
+  }
+  let hanswers = model.ask_batch(&hreqs);
+  for ((st, ans), (tv, cv)) in steps.iter().zip(hanswers.iter()).zip(impl_answers.iter()) {
+    rep.case(&format!("values-history|{}", st.history), true);
+    let parsed = Sexp::parse(ans);
+    let l = parsed.as_ref().and_then(|s| s.as_list());
+    let (mty, tag) = match l.map(|l| (l.first().cloned(), l.get(1).and_then(|x| x.as_atom()).map(|x| x.to_string()))) {
+      Some((Some(t), Some(tag))) => (t, tag),
+      _ => {
+        rep.disagree(Kind::ImplVsModel, "values-history", "driver-error", &st.history, "", ans);
+        continue;
+      }
+    };
+    rep.hit(&format!("values-history:{}", tag));
+    let input = format!("{} (the list is now {})", st.history, st.list);
+    match tv {
+      Ok(t) if type_sexp(t) == mty => {}
+      other => rep.disagree(
+        Kind::ImplVsSpec,
+        "values-history",
+        "the type of a list after a history of add / insert / remove / reverse / clone differs from the specification's type of a list of the same items",
+        &input,
+        &format!("{:?}", other.as_ref().map(|t| t.to_string())),
+        &mty.to_string(),
+      ),
+    }
+    let expected = by_tag(&tag, &st.list);
+    match cv {
+      Ok(g) if same_value(g, &expected) => {}
+      other => rep.disagree(
+        Kind::ImplVsSpec,
+        "values-history",
+        &format!("the coercion of a list after a history of add / insert / remove / reverse / clone differs from the specification's coercion of a list of the same items ({})", tag),
+        &format!("{} coerced to {}", input, probe_types[st.probe]),
+        &format!("{:?}", other.as_ref().map(|t| t.to_string())),
+        &expected.to_string(),
+      ),
     }
   }
 }
